@@ -27,18 +27,18 @@ def default_signature(mis, event):
 
 
 def run(prop, tier, seed, jobs, own, design=(), replay=None, rule='', assumptions=(), signature=None,
-        extra_cov=None, post=None):
+        extra_cov=None, post=None, prepare=None):
     """jobs: list of dict(name, script, args, module, cfg, shards). Returns exit code."""
     t0 = time.time()
     work = common.scratch_dir(prop)
     try:
         return _run(prop, tier, seed, jobs, own, design, replay, rule, list(assumptions), signature or default_signature,
-                    extra_cov or {}, post, work, t0)
+                    extra_cov or {}, post, work, t0, prepare)
     finally:
         shutil.rmtree(work, ignore_errors=True)
 
 
-def _run(prop, tier, seed, jobs, own, design, replay, rule, assumptions, signature, extra_cov, post, work, t0):
+def _run(prop, tier, seed, jobs, own, design, replay, rule, assumptions, signature, extra_cov, post, work, t0, prepare):
     verdict = common.Verdict(prop)
     states = transitions = 0
     design_info = []
@@ -52,6 +52,11 @@ def _run(prop, tier, seed, jobs, own, design, replay, rule, assumptions, signatu
             transitions += r['generated']
             design_info.append({'module': module, 'cfg': cfg, 'distinct_states': r['distinct'],
                                 'states_generated': r['generated'], 'wall_s': round(r['wall'], 1)})
+    if prepare is not None:
+        st, tr, info = prepare(work)
+        states += st
+        transitions += tr
+        design_info.extend(info)
     units = []
     for job in jobs:
         if replay is not None:
@@ -66,7 +71,7 @@ def _run(prop, tier, seed, jobs, own, design, replay, rule, assumptions, signatu
         job, sh = unit
         tag = 'replay' if sh is None else str(sh)
         out = os.path.join(work, f"{job['name']}-{tag}.ndjson")
-        args = [job['script']] + list(job['args']) + ['--seed', str(seed), '--out', out]
+        args = [job['script']] + [x.replace('{work}', work) for x in job['args']] + ['--seed', str(seed), '--out', out]
         if sh is None:
             args += ['--only', str(replay['b'])]
         else:
